@@ -68,3 +68,16 @@ def cs_side(cs):
 
 CS = "CS"
 World = "World"
+
+
+def db_row(storage, rid):
+    """the (tag, blob) row stored under id in the real table, or None"""
+    rows = storage.db.execute("SELECT tag, serialization FROM cloud WHERE id = ?", [rid]).fetchall()
+    return (rows[0][0], rows[0][1]) if rows else None
+
+
+def some_bytes(name="b"):
+    return b"\x00new-bytes\xfe:" + name.encode()
+
+
+Sqlite = "Sqlite"
